@@ -85,6 +85,20 @@ template<typename DT_, typename IT_> void inst()
   typedef LAFEM::PowerFilter<LAFEM::UnitFilter<DT_, IT_>, 3> PF;
   PF pf; typename PF::VectorType pv;
   vec4(pf, pv);
+  // inner levels of the recursive compositions, named explicitly: they are instantiated whether or not the outer level reaches them
+  // through its own first()/rest() recursion (a loop over get(i) or a private helper template may replace that recursion)
+  LAFEM::FilterChain<LAFEM::MeanFilter<DT_, IT_>, LAFEM::UnitFilter<DT_, IT_>> chain_r1;
+  LAFEM::FilterChain<LAFEM::UnitFilter<DT_, IT_>> chain_r2;
+  LAFEM::FilterChain<LAFEM::UnitFilterBlocked<DT_, IT_, 2>> chain_b1;
+  vec4(chain_r1, dv); vec4(chain_r2, dv); vec4(chain_b1, dvb2);
+  typedef LAFEM::TupleFilter<LAFEM::MeanFilter<DT_, IT_>, LAFEM::UnitFilter<DT_, IT_>> TF1;
+  typedef LAFEM::TupleFilter<LAFEM::UnitFilter<DT_, IT_>> TF2;
+  TF1 tf1; typename TF1::VectorType tv1; TF2 tf2; typename TF2::VectorType tv2;
+  vec4(tf1, tv1); vec4(tf2, tv2);
+  typedef LAFEM::PowerFilter<LAFEM::UnitFilter<DT_, IT_>, 2> PF2;
+  typedef LAFEM::PowerFilter<LAFEM::UnitFilter<DT_, IT_>, 1> PF1;
+  PF2 pf2; typename PF2::VectorType pv2; PF1 pf1; typename PF1::VectorType pv1;
+  vec4(pf2, pv2); vec4(pf1, pv1);
   typedef Global::Filter<LAFEM::UnitFilter<DT_, IT_>, LAFEM::VectorMirror<DT_, IT_>> GF;
   GF gf; typename GF::VectorType* gv(nullptr);
   vec4(gf, *gv);
